@@ -370,7 +370,19 @@ class Config:
         if dct is not None:
             kwargs.update(dct)
 
+        _missing = object()
+        previous = {key: self.__dict__.get(key, _missing) for key in kwargs}
+
         for key, val in kwargs.items():
             self._set(key, val)
 
-        self.check()
+        try:
+            self.check()
+        except ValueError:
+            # a rejected update leaves the previous values in effect
+            for key, val in previous.items():
+                if val is _missing:
+                    self.__dict__.pop(key, None)
+                else:
+                    self.__dict__[key] = val
+            raise
